@@ -106,8 +106,11 @@ func (s *SelfManaged) Receive(c *actor.Context) {
 	case memberPing:
 		s.handleMemberPing(c)
 	case memberLeave:
-		member := s.members.GetByHost(msg.ListenAddr)
-		s.removeMember(member)
+		// The unreachable address may belong to no member (any failing
+		// remote connection is reported here): nothing to remove then.
+		if member := s.members.GetByHost(msg.ListenAddr); member != nil {
+			s.removeMember(member)
+		}
 	case *actor.Ping:
 	case actor.Initialized:
 		_ = msg
